@@ -447,6 +447,20 @@ class UBody:
                         u = self.combine(name, self.op_unit(t["args"][0]), self.op_unit(t["args"][1]), t["span"], t["args"][0], t["args"][1])
                         if name == "overflowing_mul" and dk and u:
                             changed |= self.setu((dk[0], dk[1] + (0,)), u, "omul")
+                    if name in ("cmp", "partial_cmp", "lt", "le", "gt", "ge") and fn["path"].startswith("core::cmp::") and len(t["args"]) == 2 and "usize" in " ".join(fn.get("args") or [fn.get("self_ty") or ""]):
+                        # `a.cmp(&b)` orders two values exactly like `a < b`: u1 applies (the operands are passed by reference)
+                        def ref_unit(a_, depth=0):
+                            if a_["k"] in ("copy", "move") and not a_["p"]["proj"] and depth < 4:
+                                ds_ = self.d.single_def(a_["p"]["local"])
+                                if ds_ and ds_[0] == "stmt" and ds_[3]["rv"]["k"] == "ref":
+                                    pl_ = ds_[3]["rv"]["p"]
+                                    if len(pl_["proj"]) == 1 and pl_["proj"][0]["k"] == "deref":      # a reborrow `&*r`
+                                        return ref_unit({"k": "copy", "p": {"local": pl_["local"], "proj": []}}, depth + 1)
+                                    return self.op_unit({"k": "copy", "p": pl_})
+                            return self.op_unit(a_)
+                        ua, ub = ref_unit(t["args"][0]), ref_unit(t["args"][1])
+                        if {ua, ub} == {ROW, COL}:
+                            self.err("u1", "%scmp%s" % (ua, ub), "ordering comparison (%s) of a %s with a %s: %s vs %s" % (name, ua, ub, self.sh(t["args"][0]), self.sh(t["args"][1])), t["span"])
                     if name in ("min", "max") and fn["path"].startswith("core::cmp::Ord::") and len(t["args"]) == 2:
                         a, b2 = self.op_unit(t["args"][0]), self.op_unit(t["args"][1])
                         if a in (ROW, COL) and a == b2:
